@@ -27,6 +27,61 @@ def rec(tag, value=None):
     return value
 
 
+class CustomExc(Exception):
+    pass
+
+
+EXC = [AttributeError, NameError, KeyError, IndexError, LookupError, TypeError, ValueError,
+       ZeroDivisionError, RuntimeError, CustomExc]
+KIND_N['out'] = len(EXC) + 1
+
+
+def pick(table, idx):
+    """table[idx] for a symbolic idx by explicit case split (indexing a list of classes/objects with
+    a symbolic int makes CrossHair build a symbolic *type*, which it cannot exhaust)."""
+    for j in range(len(table)):
+        if idx == j:
+            return table[j]
+    raise IndexError(idx)
+
+
+def make_L(outs, vals, log):
+    """recording leaf: L(k) logs, then returns vals[k] or raises the exception class selected by the
+    symbolic outcome outs[k] (0 = succeeds)."""
+    def L(k):
+        log.append('L%d' % k)
+        o = outs.get(k, 0)
+        if o == 0:
+            return vals.get(k, 1)
+        raise pick(EXC, o - 1)('boom%d' % k)
+    return L
+
+
+class HasAttr:
+    k = 'attr'
+
+
+class HasItem:
+    def __getitem__(self, name):
+        if name == 'k':
+            return 'item'
+        raise KeyError(name)
+
+
+class ItemIndexError:
+    def __getitem__(self, name):
+        raise IndexError(name)
+
+
+class Plain:
+    pass
+
+
+OBJ = [HasAttr(), HasItem(), {'k': 'dictitem'}, {'z': 1}, Plain(), ItemIndexError(), None, 3]
+KIND_N['obj'] = len(OBJ)
+BOOL_KINDS = ('bool', 'lbool', 'maybe', 'llist')
+
+
 def _mutate(name):
     from chameleon import compiler as cc
     from chameleon.zpt import program as zp
@@ -59,6 +114,13 @@ def _mutate(name):
         ns = dict(src_fn.__globals__)
         exec(code, ns)
         zp.MacroProgram._make_content_node = ns['_make_content_node']
+    elif name == 'pipe_catches_zerodiv':
+        from chameleon import tales
+        tales.TalesExpr.exceptions = tales.TalesExpr.exceptions + (ArithmeticError,)
+        tales.PythonExpr.exceptions = tales.TalesExpr.exceptions
+    elif name == 'exists_misses_nameerror':
+        from chameleon import tales
+        tales.ExistsExpr.exceptions = (AttributeError, LookupError, TypeError)
     else:
         raise KeyError(name)
 
@@ -67,11 +129,13 @@ def collect_sources(node, acc):
     def ex(e):
         if 'py' in e:
             acc.add(e['py'])
+        if 'attr' in e:
+            ex(e['attr'][0])
         for k in ('pipe', 'string'):
             for x in e.get(k, []):
                 if isinstance(x, dict):
                     ex(x)
-        for k in ('not', 'exists', 'structure'):
+        for k in ('not', 'exists', 'structure', 'python'):
             if k in e:
                 ex(e[k])
     if isinstance(node, str):
@@ -81,6 +145,11 @@ def collect_sources(node, acc):
         return
     for sc, n, e in node.get('define', []):
         ex(e)
+    for n, v in node.get('static', []):
+        if not isinstance(v, str):
+            for part in v:
+                if not isinstance(part, str):
+                    ex(part['interp'])
     for k in ('condition', 'switch', 'case'):
         if k in node:
             ex(node[k])
@@ -111,21 +180,41 @@ def prepare(cfg):
     for k in range(6):
         N[k] = 1
     for name, kind, slot in cfg.get('vars', []):
-        if kind != 'bool':
+        if kind not in BOOL_KINDS and slot is not None:
             N[slot] = KIND_N.get(kind, 4)
 
 
 def bind(ints, bools):
     b = {}
+    outs = {}
+    vals = {}
+    b['__outs__'] = outs
+    b['__vals__'] = vals
     for name, kind, slot in CFG.get('vars', []):
+        if kind == 'out':            # name = leaf number
+            outs[name] = ints[slot]
+            continue
+        if kind == 'lbool':          # leaf value: symbolic bool
+            vals[name] = bools[slot]
+            continue
+        if kind == 'llist':          # leaf value: a list (for repeat sites)
+            vals[name] = [7, 8]
+            continue
+        if kind == 'obj':
+            b[name] = pick(OBJ, ints[slot])
+            continue
+        if kind == 'maybe':          # variable bound (to 5) or not bound at all
+            if bools[slot]:
+                b[name] = 5
+            continue
         if kind == 'bool':
             b[name] = bools[slot]
         elif kind == 'int':
             b[name] = ints[slot]
         elif kind == 'cls':
-            b[name] = CLS[ints[slot]]
+            b[name] = pick(CLS, ints[slot])
         elif kind == 'cls_nd':
-            v = CLS[ints[slot]]
+            v = pick(CLS, ints[slot])
             b[name] = 5 if v is DEFAULT_MARKER else v
         elif kind == 'len':
             b[name] = list(range(ints[slot]))
@@ -140,7 +229,10 @@ def bind(ints, bools):
 def run_engine(bindings):
     del LOG[:]
     b = dict(bindings)
+    outs = b.pop('__outs__', {})
+    vals = b.pop('__vals__', {})
     b['rec'] = rec
+    b['L'] = make_L(outs, vals, LOG)
     try:
         out = STATE['template'].render(**b)
         return ('ok', out, list(LOG))
@@ -162,7 +254,11 @@ def run_ref(bindings, **kw):
     def rrec(tag, value=None):
         log.append(tag)
         return value
-    ref = refsem.Ref(DEFAULT_MARKER, STATE['codes'], helpers={'rec': rrec}, log=log, **kw)
+    bindings = dict(bindings)
+    outs = bindings.pop('__outs__', {})
+    vals = bindings.pop('__vals__', {})
+    ref = refsem.Ref(DEFAULT_MARKER, STATE['codes'],
+                     helpers={'rec': rrec, 'L': make_L(outs, vals, log)}, log=log, **kw)
     scope = refsem.RScope(bindings)
     out = []
     try:
